@@ -55,7 +55,8 @@ class Conn:
 
 
 class Scenario:
-    def __init__(self, files):
+    def __init__(self, files, opts=None):
+        self.opts = opts or {}
         from vlib.world import World
         self.gc_was = gc.isenabled()
         gc.disable()
@@ -77,8 +78,34 @@ class Scenario:
         net.send_peer_messages = send_peer_messages
         self.sm = self.w.client.shares
         self.tm = self.w.client.transfers
+        if self.opts.get('hostile'):
+            self._register_hostile_listeners()
         self.cfg = {'friends': [], 'blocked': {}, 'phrases': [], 'max': 100}
         self.ticket = 100
+
+    def _register_hostile_listeners(self):
+        """Application listeners registered late on the client's event bus for the events the entitlement logic lives on: one that
+        raises (before the managers' listeners: priority 0), one coroutine that suspends, one coroutine that raises.  The event
+        bus must keep delivering to the managers."""
+        import asyncio
+        from aioslsk.events import SharedDirectoryChangeEvent, FriendListChangedEvent, BlockListChangedEvent, TransferAddedEvent
+
+        def raising(event):
+            raise RuntimeError('listener failure')
+
+        async def suspending(event):
+            for _ in range(3):
+                await asyncio.sleep(0)
+
+        async def raising_async(event):
+            await asyncio.sleep(0)
+            raise ValueError('async listener failure')
+        self._listeners = [raising, suspending, raising_async]      # the bus only keeps weak references
+        bus = self.w.client.events
+        for ev in (SharedDirectoryChangeEvent, FriendListChangedEvent, BlockListChangedEvent, TransferAddedEvent):
+            bus.register(ev, raising, priority=0)
+            bus.register(ev, suspending, priority=1)
+            bus.register(ev, raising_async, priority=200)
 
     def close(self):
         try:
@@ -116,6 +143,12 @@ class Scenario:
             elif st[0] == 'update':
                 self.sm.update_shared_directory(self.abs(st[1]), share_mode=DirectoryShareMode(st[2]) if st[2] else None,
                                                 users=list(st[3]) if st[3] is not None else None)
+            elif st[0] == 'load':
+                from aioslsk.settings import SharedDirectorySettingEntry
+                ob['aliases'] = [self.alias(c) for c, _, _ in st[1]]
+                self.w.client.settings.shares.directories = [
+                    SharedDirectorySettingEntry(path=self.abs(c), share_mode=DirectoryShareMode(m), users=list(us)) for c, m, us in st[1]]
+                self.sm.load_from_settings()
             elif st[0] == 'scan':
                 ob['disk'] = self.snapshot()
                 d = self.sm.get_shared_directory(self.abs(st[1]))
@@ -130,8 +163,22 @@ class Scenario:
         from aioslsk.user.model import BlockingFlag
         from aioslsk.protocol.messages import ExcludedSearchPhrases
         st = self.w.client.settings
-        st.users.friends = set(cfg['friends'])
-        st.users.blocked = {u: BlockingFlag[f] for u, f in cfg['blocked'].items()}
+        if self.opts.get('whole_cfg'):
+            from aioslsk.settings import UsersSettings
+            st.users = UsersSettings(friends=set(cfg['friends']), blocked={u: BlockingFlag[f] for u, f in cfg['blocked'].items()})
+        elif self.opts.get('inplace_cfg'):
+            # the application edits the live collections in place (add / discard), it does not assign new ones
+            for u in set(st.users.friends) - set(cfg['friends']):
+                st.users.friends.discard(u)
+            for u in cfg['friends']:
+                st.users.friends.add(u)
+            for u in set(st.users.blocked) - set(cfg['blocked']):
+                del st.users.blocked[u]
+            for u, f in cfg['blocked'].items():
+                st.users.blocked[u] = BlockingFlag[f]
+        else:
+            st.users.friends = set(cfg['friends'])
+            st.users.blocked = {u: BlockingFlag[f] for u, f in cfg['blocked'].items()}
         st.searches.receive.max_results = cfg['max']
         if cfg['phrases'] != self.cfg['phrases']:
             self.w.server_send(ExcludedSearchPhrases.Response(phrases=list(cfg['phrases'])))
@@ -308,7 +355,7 @@ class Scenario:
 
 
 def run_scenario(scn):
-    sc = Scenario(scn['files'])
+    sc = Scenario(scn['files'], scn.get('opts'))
     out = []
     try:
         for e in scn['events']:
@@ -383,6 +430,10 @@ def monitor(scn, obs):
                 intent[tuple(st[1])] = (st[2], list(st[3]))
             elif st[0] == 'remove':
                 intent.pop(tuple(st[1]), None)
+            elif st[0] == 'load':
+                intent.clear()
+                for c, m, us in st[1]:
+                    intent[tuple(c)] = (m, list(us))
             elif st[0] == 'update' and tuple(st[1]) in intent:
                 m0, u0 = intent[tuple(st[1])]
                 intent[tuple(st[1])] = (st[2] or m0, list(st[3]) if st[3] is not None else u0)
@@ -516,7 +567,67 @@ def gen_cfg(rng, vocab, favour=()):
     return {'friends': sorted(friends), 'blocked': blocked, 'phrases': phrases, 'max': rng.choice([1, 2, 5, 100, 100, 100])}
 
 
-def gen_scenario(rng):
+def directed_scenarios():
+    """Fixed scenarios, run on every run whatever the seed, one per input class that random generation only hits sometimes."""
+    files = [[['d', 'one song.mp3'], 5], [['d', 'two song.mp3'], 6], [['e', 'three.mp3'], 7]]
+    F = ['d', 'one song.mp3']
+    setup = [['share', ['add', ['d'], 'everyone', []]], ['share', ['scan', ['d']]], ['share', ['add', ['e'], 'everyone', []]], ['share', ['scan', ['e']]],
+             ['cfg', {'friends': ['u1'], 'blocked': {}, 'phrases': [], 'max': 100}], ['cycle']]
+    Q = lambda u, f=F: ['queue', u, ['item', f, 'exact']]
+    none = {'friends': [], 'blocked': {}, 'phrases': [], 'max': 100}
+    out = []
+    # an upload that finished (or was aborted for a reason) before the user lost access, then is asked for again
+    for st, ar in (('COMPLETE', None), ('FAILED', None), ('ABORTED', 'Blocked'), ('PAUSED', None)):
+        for tighten in ([['share', ['update', ['d'], 'friends', []]], ['cfg', none]], [['share', ['update', ['d'], 'users', ['u2']]]]):
+            out.append({'files': files, 'events': setup + [Q('u1'), ['set', 0, st, ar]] + tighten + [['cycle'], Q('u1'), ['request', 'u1', ['item', F, 'exact']], ['cycle']]})
+    # a friend / a named user uses a restricted directory and is then removed from the list (also: to the empty list)
+    out.append({'files': files, 'events': setup + [['share', ['update', ['d'], 'friends', []]], ['cycle'], ['search', 'u1', 'song'], Q('u1'),
+                                                   ['cfg', none], ['cycle'], ['search', 'u1', 'song'], Q('u1', ['d', 'two song.mp3']), ['sharesreq', 'u1'], ['cycle']]})
+    for users in ([], ['u2']):
+        out.append({'files': files, 'events': setup + [['share', ['update', ['d'], 'users', ['u1']]], ['cycle'], ['search', 'u1', 'song'], Q('u1'),
+                                                       ['share', ['update', ['d'], None, users]], ['cycle'], ['search', 'u1', 'song'],
+                                                       Q('u1', ['d', 'two song.mp3']), ['sharesreq', 'u1'], ['cycle']]})
+    for k in (1, 2, 3, 4):
+        # the application removes an earlier transfer while the cycle's abort of an upload with a running task is suspended
+        out.append({'files': files, 'events': setup + [Q('u1'), Q('u2'), Q('u3'), ['set', 0, 'COMPLETE', None], ['set', 1, 'INITIALIZING', None, 'live'], ['cycle'],
+                                                       ['share_nc', ['update', ['d'], 'users', []]], ['spin', k], ['remove_async', 0], ['cycle_nr']]})
+        # a second share change arrives while the cycle started by the first one may be suspended
+        out.append({'files': files, 'events': setup + [Q('u2'), Q('u3', ['e', 'three.mp3']), ['cycle'], ['share_nc', ['update', ['d'], 'users', ['u1']]], ['spin', k],
+                                                       ['share_nc', ['update', ['e'], 'friends', []]], ['cycle_nr']]})
+    # a share change and a list event about another user in the same management interval
+    for other in (dict(none, friends=['u1', 'u3']), dict(none, friends=['u1'], blocked={'u3': 'UPLOADS'}), none):
+        out.append({'files': files, 'events': setup + [Q('u2'), Q('u1'), ['cycle'], ['share_nc', ['update', ['d'], 'friends', []]], ['cfg_evt', other], ['cycle_nr']]})
+    # an upload aborted on request while its user is blocked and unblocked again
+    out.append({'files': files, 'events': setup + [Q('u2'), ['set', 0, 'ABORTED', 'Requested'], ['cfg', dict(none, blocked={'u2': 'UPLOADS'})], ['cycle'],
+                                                   ['cfg', none], ['cycle']]})
+    for i, scn in enumerate(out):
+        scn['opts'] = {'hostile': i % 3 == 1, 'whole_cfg': i % 4 == 2}
+    # the friends / block collections edited in place, after an earlier change was already noticed; only the client's own cycles
+    fr = lambda *us: {'friends': list(us), 'blocked': {}, 'phrases': [], 'max': 100}
+    out.append({'files': files, 'opts': {'inplace_cfg': True},
+                'events': setup[:4] + [['cfg', fr('u1')], ['cycle'], ['share', ['update', ['d'], 'friends', []]], ['cycle'], Q('u1'), ['cfg', fr('u1', 'u3')], ['cycle_nr'],
+                           ['cfg', fr('u3')], ['cycle_nr'], ['search', 'u1', 'song'], ['cfg', fr('u1', 'u3')], ['cycle_nr'],
+                           ['cfg', dict(fr('u1', 'u3'), blocked={'u1': 'UPLOADS'})], ['cycle_nr'], ['cfg', fr('u1', 'u3')], ['cycle_nr']]})
+    # shared directories (re)applied through load_from_settings: one removed, one restricted, the other left unchanged
+    L = lambda *ents: ['share_nc', ['load', [list(e) for e in ents]]]
+    both = ((['d'], 'everyone', []), (['e'], 'everyone', []))
+    for after in (((['e'], 'everyone', []),), ((['d'], 'users', ['u3']), (['e'], 'everyone', [])), ((['d'], 'friends', []), (['e'], 'everyone', []))):
+        out.append({'files': files, 'opts': {},
+                    'events': [L(*both), ['share', ['scan', ['d']]], ['share', ['scan', ['e']]], ['cfg', none], ['cycle'], Q('u1'), Q('u2', ['e', 'three.mp3']), ['cycle'],
+                               L(*after), ['cycle_nr'], ['search', 'u1', 'song'], Q('u1', ['d', 'two song.mp3'])]})
+    return out
+
+
+def gen_scenario(rng, stress=0.3):
+    scn = _gen_scenario(rng)
+    # helpers the entitlement logic relies on: hostile late listeners on the event bus, settings objects replaced as a whole
+    scn['opts'] = {'hostile': rng.random() < stress, 'whole_cfg': rng.random() < stress}
+    if not scn['opts']['whole_cfg'] and rng.random() < stress:
+        scn['opts']['inplace_cfg'] = True
+    return scn
+
+
+def _gen_scenario(rng):
     dirs, files = S.gen_tree(rng)
     if not files:
         files = [(['d', 'sing.mp3'], 5)]
@@ -764,6 +875,9 @@ def coq_scenario(nm, scn, obs, name):
                 m = f'(Some {S.MODE_COQ[st[2]]})' if st[2] else 'None'
                 u = f'(Some {nm.sl(st[3])})' if st[3] is not None else 'None'
                 rows.append(f'EShare (Update {nm.p(st[1])} {m} {u})')
+            elif st[0] == 'load':
+                ents = ';'.join(f'({nm.p(c)},{nm.s(a)},{S.MODE_COQ[m]},{nm.sl(us)})' for (c, m, us), a in zip(st[1], ob['aliases']))
+                rows.append(f'EShare (LoadSettings [{ents}])')
             elif st[0] == 'scan':
                 if 'disk' not in ob:
                     continue
@@ -869,11 +983,12 @@ def run(run: Run):
         except Exception as e:
             run.add_broken(f'replay-of-known-witness:{key}', f'{type(e).__name__}: {e}')
 
-    n = (int(os.environ.get('VERIF_C08_N', 0)) or (70 if run.tier == 'quick' else 400)) + (0 if proved else 40)   # broken tie: search longer   # env override: development aid for mutant runs
+    n = (int(os.environ.get('VERIF_C08_N', 0)) or (50 if run.tier == 'quick' else 400)) + (0 if proved else 40)   # broken tie: search longer   # env override: development aid for mutant runs
     cases = []
     new = {}
-    for i in range(n):
-        scn = gen_scenario(run.rng)
+    directed = directed_scenarios()
+    for i in range(len(directed) + n):
+        scn = directed[i] if i < len(directed) else gen_scenario(run.rng, stress=0.3 if proved else 0.6)
         try:
             obs = run_scenario(scn)
         except Exception as e:
@@ -928,11 +1043,11 @@ def minimise(scn, key):
 
     def shows(evs):
         try:
-            s2 = {'files': scn['files'], 'events': evs}
+            s2 = {'files': scn['files'], 'events': evs, 'opts': scn.get('opts')}
             return any(k == key for k, _, _ in monitor(s2, run_scenario(s2)))
         except Exception:
             return False
-    return {'files': scn['files'], 'events': shrink_list(scn['events'], shows, max_steps=40)}
+    return {'files': scn['files'], 'events': shrink_list(scn['events'], shows, max_steps=40), 'opts': scn.get('opts')}
 
 
 def replay(rep) -> int:
